@@ -445,3 +445,54 @@ func vMetaState(idx *RoaringMetadataIndex) []uint32 {
 	}
 	return out
 }
+
+func init() { vHarnesses["H_C04_orgroup"] = H_C04_orgroup }
+
+// a group with OR inside (any term suffices — also when an earlier term matches nothing), optionally
+// OR-ed with a second AND group
+func H_C04_orgroup() {
+	docs := []*vDoc{
+		{id: 5, hasS: true, s: "a", hasI: true, i: vI64("i0"), hasB: true, b: true},
+		{id: 3, hasS: true, s: "b", hasI: true, i: vI64("i1")},
+		{id: 9, hasS: true, s: "a", hasB: true, b: false},
+	}
+	idx := vMetaIndex(docs)
+	c := vI64("c")
+	st0 := vMetaState(idx)
+	orMenu := []Filter{Eq("s", "zz"), In("s", "a"), Gte("i", c), NotExists("b")}
+	gOr := []Filter{orMenu[vChoose("or_a", len(orMenu))], orMenu[vChoose("or_b", len(orMenu))]}
+	if vChoose("or_three", 2) == 1 {
+		gOr = append(gOr, orMenu[1+vChoose("or_c", 2)])
+	}
+	var g2 []Filter
+	switch vChoose("second_group", 3) {
+	case 1:
+		g2 = []Filter{Exists("i")}
+	case 2:
+		g2 = []Filter{In("s", "a"), Ne("b", true)}
+	}
+	groups := []*FilterGroup{{Filters: gOr, Logic: OR}}
+	if g2 != nil {
+		groups = append(groups, &FilterGroup{Filters: g2, Logic: AND})
+	}
+	res, err := idx.NewSearch().WithFilterGroups(groups...).Execute()
+	vAssert(err == nil, "search-ok")
+	vCheckIDs(res, docs, func(d *vDoc) bool {
+		r := false
+		for _, f := range gOr {
+			x, _ := vEval(d, f)
+			r = vOr(r, x)
+		}
+		if g2 != nil {
+			a := true
+			for _, f := range g2 {
+				x, _ := vEval(d, f)
+				a = vAnd(a, x)
+			}
+			r = vOr(r, a)
+		}
+		return r
+	}, "or-group")
+	vAssert(vSameIDs(st0, vMetaState(idx)), "search-leaves-index-state-unchanged")
+	vCover("ran")
+}
